@@ -123,6 +123,13 @@ def Sk.addT (s : Sk) (h a : Nat) : Sk :=
       else { s with mins := m, abunds := ab }
     else s
 
+/-- `KmerMinHash::set_hash_with_abundance` (vector type only): overwrite the abundance of a present
+hash — also with 0 —, otherwise `add_hash_with_abundance`. -/
+def Sk.setV (s : Sk) (h a : Nat) : Sk :=
+  let p := pos s.mins h
+  if s.mins[p]? = some h then { s with abunds := s.abunds.map (fun l => l.set p a) }
+  else s.addV h a
+
 def Sk.add (k : Kind) (s : Sk) (h a : Nat) : Sk :=
   match k with
   | .vec => s.addV h a
